@@ -9,6 +9,10 @@ package first
 //@   valid self.clientMonitor != nil && self.proposalProviders != nil
 //@   valid forall n string :: in(self.proposalProviders, n) ==> self.proposalProviders[n] != nil
 //@
+//@ // ---- C07: the answer is a response that some node actually gave; an error exactly when none arrived in time ----
+//@ // fromNode(x): x is (the data of) a successful answer of one of the configured nodes
+//@ spec func fromNode(x *api.VersionedProposal) bool
+//@
 //@ // ---- C20: the goroutines a request starts all end, whether or not anybody still listens ----
 //@
 //@ // a node's goroutine sends at most one result, on the channel it is handed
@@ -16,7 +20,8 @@ package first
 //@   thread
 //@   requires s != nil && opts != nil && provider != nil && !closed(ch)
 //@   // go-eth2-client returns a response with every nil error
-//@   assumes call Proposal#1 (r, err): err == nil ==> r != nil
+//@   assumes call Proposal#1 (r, err): err == nil ==> r != nil && fromNode(r.Data)
+//@   chaninv ch (m): fromNode(m)
 //@   exit sends() <= 1
 //@
 //@ func (*Service).Proposal
@@ -26,8 +31,11 @@ package first
 //@   // nstarted: the number of goroutines started so far. A goroutine is only started while the result channel it is
 //@   // handed still has room for one more result than there are goroutines already: as each goroutine sends at most
 //@   // once, no send can block, even when the requester has taken the first result (or timed out) and gone
+//@   chaninv proposalCh (m): fromNode(m)
 //@   ghost nstarted Int = 0
 //@   at call go#1: assert nstarted < chancap(arg3)
 //@   at call go#1: ghost nstarted = nstarted + 1
 //@   loop 1
 //@     invariant nstarted == nvisited()
+//@   ensures (result1 == nil) <==> (result0 != nil)
+//@   ensures result1 == nil ==> fromNode(result0.Data)
